@@ -104,6 +104,7 @@ static void accumulate(Agg &a, const Outcome &o)
         a.add("lock_calls", e.lock_calls);
         a.add("lockset_switches", e.lockset_switches);
         a.add("thread_switches", e.thread_switches);
+        a.add("half_isolation_checks", e.iso_checks);
         a.add("P_thread_blocked_on_mutex", e.blocked_on_mutex);
         a.add("lines", m.lines);
         a.add("blank_lines", m.blank_lines);
@@ -345,11 +346,12 @@ int main(int argc, char **argv)
                 // minimise: keep candidates that fail with the same property and rule
                 int reruns = 0;
                 std::string rule = o.viol.rule;
-                FailPred pred = [&](const Plan &c) {
-                        Outcome oc = check_plan(prop, c);
-                        return oc.viol.set() && oc.viol.rule == rule;
-                };
-                Plan m = shrink_plan(fp, pred, 2500, &reruns);
+                // candidates run in forked children: a candidate may crash (assert / sanitizer) without
+                // taking the worker down; a crashing candidate is simply not "the same failure"
+                FailPred pred = [&](const Plan &c) { return fails_in_child(prop, c, rule, false); };
+                Plan m = shrink_plan(fp, pred, 1500, &reruns);
+                if (!fails_in_child(prop, m, rule, false))
+                        m = fp;
                 Outcome om = check_plan(prop, m);
                 char name[256];
                 snprintf(name, sizeof name, "%s/%s-%s-q%d-seed%llu-idx%llu.plan", outdir.c_str(), prop.c_str(), rule.c_str(), engine_qcap(), (unsigned long long)seed, (unsigned long long)idx);
